@@ -121,6 +121,9 @@ pub fn value(fid: u32, k: u32, ver: u32) -> String {
     if k == 9 || (k == 8 && ver >= 2) {
         s.push_str(&"#".repeat(200));
     }
+    if k == 7 && ver >= 2 {
+        s.push_str(&"+".repeat(10));
+    }
     s.shrink_to_fit();
     s
 }
